@@ -208,6 +208,8 @@ def generate():
     ])
 
     f = find_func(k, "sign_number", cls="SigningKey")
+    if ast.unparse(f.args) != "self, number, entropy=None, k=None":
+        raise Unsupported("sign_number: parameters/defaults changed")
     out += match("SigningKey.sign_number", f.body, [
         ("order = self.privkey.order", []),
         ("if k is not None:\n    _k = k\nelse:\n    _k = randrange(order, entropy)", []),
@@ -217,6 +219,8 @@ def generate():
     ])
 
     f = find_func(k, "from_secret_exponent", cls="SigningKey")
+    if ast.unparse(f.args) != "cls, secexp, curve=NIST192p, hashfunc=sha1":
+        raise Unsupported("from_secret_exponent: parameters/defaults changed")
     out += match("SigningKey.from_secret_exponent", f.body, [
         ("self = cls(_error__please_use_generate=True)", []),
         ("self.curve = curve", []),
@@ -279,6 +283,8 @@ def generate():
         "hashfunc = hashfunc or self.default_hashfunc", "data = normalise_bytes(data)", "h = hashfunc(data).digest()",
         "return self.sign_digest(h, entropy, sigencode, k, allow_truncate)"]])
     f = find_func(k, "sign_deterministic", cls="SigningKey")
+    if ast.unparse(f.args) != "self, data, hashfunc=None, sigencode=sigencode_string, extra_entropy=b''":
+        raise Unsupported("sign_deterministic: parameters/defaults changed")
     match("SigningKey.sign_deterministic", f.body, [(x, []) for x in [
         "hashfunc = hashfunc or self.default_hashfunc", "data = normalise_bytes(data)",
         "extra_entropy = normalise_bytes(extra_entropy)", "digest = hashfunc(data).digest()",
